@@ -243,3 +243,22 @@ func init() {
 	checks["C17"] = checkC17
 	replayers["C17"] = replaySemCase(&SemOpts{})
 }
+
+func checkC07(c *Ctx) {
+	o := &SemOpts{IgnoreOut: true, RunUnspec: true}
+	wild, math := "FamWild_quick.cfg", "FamMath_quick.cfg"
+	if c.Tier == "thorough" {
+		wild, math = "FamWild_thorough.cfg", "FamMath_thorough.cfg"
+	}
+	c.runSemFamily("FamWild", wild, o, 60*time.Minute)
+	c.runSemFamily("FamMath", math, o, 60*time.Minute)
+	c.runSemFamily("FamOps", "FamOps_quick.cfg", o, 60*time.Minute)
+	c.cov("exhaustive", false)
+	c.cov("rule", "FamWild (46 indexing / property / call / operator / built-in / statement forms x 20 values of every kind and boundary magnitude x 6 partner values, self-containing arrays and objects handed to every consumer, deep bracket / unary / call nesting and bounded recursion, seeded grammar-based random programs), FamMath (every built-in x argument count x kinds) and FamOps (operator matrix): every program must end normally or with a reported runtime error - a recovered Go panic, a fatal error that kills the worker process, or a hang is a violation; programs whose text output the specification leaves open are still run for crash-freedom")
+	semAssumptions(c)
+}
+
+func init() {
+	checks["C07"] = checkC07
+	replayers["C07"] = replaySemCase(&SemOpts{IgnoreOut: true, RunUnspec: true})
+}
